@@ -159,7 +159,6 @@ use std::{
     time::{Duration, Instant},
 };
 
-use parking_lot::RwLock;
 use serde::{Deserialize, Serialize};
 use tokio::sync::broadcast;
 
@@ -171,6 +170,7 @@ use crate::{
     membership::{MembershipCallback, NodeHealth},
     network::{Message, Transport},
     signing::{Identity, SequenceTracker, SignedGossipMessage, ValidatorRegistry},
+    sync_compat::RwLock,
 };
 
 /// State of a node in the gossip protocol.
